@@ -200,12 +200,19 @@ pub fn validate_ip(cx: &TxContext, b: &[u8]) -> Result<FrameSummary, Violation> 
             // later fragments belong to a datagram whose first fragment was judged when it
             // was sent; the address may legitimately have been removed since
             let first = matches!(&ip, IpPkt::V4(p) if p.frag_off == 0);
+            // a DHCP client message larger than the MTU is fragmented like any other datagram
+            // and still comes from 0.0.0.0: the first fragment shows the UDP header, later
+            // fragments only the protocol number
+            let fp = ip.payload();
+            let dhcp_unspec = ip.src().is_v4()
+                && ip.proto() == PROTO_UDP
+                && (!first || (fp.len() >= 9 && ((fp[0..4] == [0, 68, 0, 67]) || fp[8] == 1)));
             if first {
-                src_legal(cx, &ip.src(), false, "IP fragment")?;
+                src_legal(cx, &ip.src(), dhcp_unspec, "IP fragment")?;
             } else {
                 let mut relaxed = cx.clone();
                 relaxed.own_addrs = None;
-                src_legal(&relaxed, &ip.src(), false, "IP fragment")?;
+                src_legal(&relaxed, &ip.src(), dhcp_unspec, "IP fragment")?;
             }
         }
         return Ok(FrameSummary {
